@@ -26,14 +26,19 @@ HunkShapes == {
    [os |-> 7, ns |-> 7, old |-> <<>>, new |-> <<>>, pre |-> 0, suf |-> 0] }                       \* empty hunk -7,0 +7,0
 HunkLists == {<<>>} \cup {<<h>> : h \in HunkShapes} \cup {<<h1, h2>> : h1 \in {x \in HunkShapes : x.pre = 1}, h2 \in {x \in HunkShapes : x.os >= 4}}
 
-Metas == {m \in [old : Names, new : Names, ren : BOOLEAN, operm : {NONE, "100644"}, nperm : {NONE, "100755"}, hash : BOOLEAN] :
+Metas == {m \in [old : Names, new : Names, ren : BOOLEAN, operm : {NONE, "100644", "644"}, nperm : {NONE, "100755", "40000"}, hash : BOOLEAN] :
             /\ ~(m.old = NULL /\ m.new = NULL)
             /\ (m.ren => m.old # NULL /\ m.new # NULL /\ m.old # m.new) }
 
 Mk(m, hs) == [kind |-> RecognizeKind(hs), old |-> m.old, new |-> m.new, ren |-> m.ren, operm |-> m.operm, nperm |-> m.nperm,
               ohash |-> IF m.hash THEN "1a2b3c" ELSE NONE, nhash |-> IF m.hash THEN "4d5e6f" ELSE NONE, hunks |-> hs]
 \* a patch without hunks exists only with extended headers (git metadata)
-Producible(m, hs) == hs # <<>> \/ m.ren \/ m.operm # NONE \/ m.nperm # NONE \/ m.hash
+Retained(m) == m.ren \/ m.operm # NONE \/ m.nperm # NONE \/ m.hash
+\* ... among them lines the parser recognises and ignores ("copy from" / "copy to"): a file patch made of nothing
+\* but its two names.  The writer has no line to write for it, so its written form is not a file patch: a named
+\* deviation from C12 (KNOWN_FINDINGS: copy-only-file-patch-lost), excluded from RoundTrip, emitted for replay.
+CopyOnly(m, hs) == hs = <<>> /\ ~Retained(m) /\ m.old # NULL /\ m.new # NULL
+Producible(m, hs) == hs # <<>> \/ Retained(m) \/ CopyOnly(m, hs)
 
 \* git's creation / deletion of a zero-length file (one hunk without lines, /dev/null on the other side)
 EmptyFilePatches ==
@@ -47,11 +52,14 @@ Next == /\ ph < MaxFPs /\ ph' = ph + 1
         /\ \/ \E m \in Metas : \E hs \in HunkLists : Producible(m, hs) /\ fps' = Append(fps, Mk(m, hs))
            \/ \E e \in EmptyFilePatches : fps' = Append(fps, e)
 
-RoundTrip == fps # <<>> =>
+RoundTrip == (fps # <<>> /\ \A i \in 1..Len(fps) : ~IsCopyOnly(fps[i])) =>
    LET w == Write(fps)
        p == Parse(w, FALSE)
    IN /\ p.ok
       /\ PatchEq(p.fps, fps)
       /\ Write(p.fps) = w
+\* the deviation is exactly that: the written form parses, to the other file patches
+CopyOnlyLost == (fps # <<>> /\ \E i \in 1..Len(fps) : IsCopyOnly(fps[i])) =>
+   LET p == Parse(Write(fps), FALSE) IN p.ok /\ PatchEq(p.fps, SelectSeq(fps, LAMBDA fp : ~IsCopyOnly(fp)))
 Emit == (EmitCases /\ fps # <<>>) => PrintT(ToJson([fps |-> fps, written |-> Write(fps)]))
 =============================================================================
